@@ -5,6 +5,7 @@ import (
 	"encoding/json"
 	"fmt"
 	"os"
+	"regexp"
 	"strings"
 	"time"
 
@@ -344,7 +345,19 @@ func evalC12(sc *Scenario, sim *Sim) ([]Violation, bool, string) {
 			case "case":
 				// change the case of one letter (a stored \x5C instead of \x5c is a different operand)
 				found := false
-				for k := 0; k < len(g.Stdout); k++ {
+				// prefer a hex digit of an escape such as \x5c: escapes are where a "harmless" normalisation would hide a difference
+				if m := hexEscapeLetter.FindIndex(edited[tg.Start:end]); m != nil && p.FlipAt%2 == 0 {
+					q := tg.Start + m[1] - 1
+					if edited[q] >= 'a' && edited[q] <= 'f' {
+						edited[q] -= 32
+						pos, found = q, true
+					} else if hexEscapeLetter2.Match(edited[tg.Start+m[0] : tg.Start+m[1]]) {
+						q = tg.Start + m[0] + 2
+						edited[q] -= 32
+						pos, found = q, true
+					}
+				}
+				for k := 0; k < len(g.Stdout) && !found; k++ {
 					q := tg.Start + (p.FlipAt+k)%len(g.Stdout)
 					c := edited[q]
 					if c >= 'a' && c <= 'z' {
@@ -405,6 +418,9 @@ func relocate(orig, cur []byte, off int) int {
 	}
 	return pos + col
 }
+
+var hexEscapeLetter = regexp.MustCompile(`\\x[0-9a-f]{2}`)
+var hexEscapeLetter2 = regexp.MustCompile(`^\\x[a-f]`)
 
 func removeFile(sb *Sandbox, rel string) error {
 	return os.Remove(sb.Path(rel))
